@@ -10,11 +10,13 @@
      after the versions moved from current/ to merged/;
    - open, commit, merge-on-open and history deletion are well-named programs; a handle knows
      the version objects it merged (this is what s3db_version lists: the names in h_merged);
-   - a commit that is not needed leaves the handle's version list (and the bucket) unchanged.
+   - a commit that is not needed leaves the handle's version list (and the bucket) unchanged;
+   - a vacuum of a table that holds no entry changes nothing: the table keeps its handle — the
+     version s3db_version() reports — and the whole statement sends no PUT.
    Only [exact lemma] statements followed by Print Assumptions. *)
 From Coq Require Import ZArith List Bool.
-From S3db Require Import Base KeyOrder RowMerge Tree Store KvProto Inst.
-From S3db.proofs Require Import ProtoProofs ExecProofs CommitProofs OpenProofs NamedProofs SnapshotProofs EqbProofs.
+From S3db Require Import Base KeyOrder RowMerge Tree Store KvProto Inst Stmt.
+From S3db.proofs Require Import ProtoProofs ExecProofs CommitProofs OpenProofs NamedProofs SnapshotProofs EqbProofs VacuumEmptyProofs.
 Import ListNotations.
 Open Scope Z_scope.
 
@@ -70,6 +72,16 @@ Proof.
 Qed.
 End C11.
 
+Theorem C11_vacuum_of_an_empty_table_keeps_its_version (cfg : KvProto.cfg (V := row)) (corder : list name) (tb tb' : table) before e :
+  h_tree (tb_h tb) = [] -> commit_needed (tb_h tb) = false ->
+  returns (tbl_vacuum cfg corder tb before) (tb', e) -> tb_h tb' = tb_h tb.
+Proof. exact (vacuum_empty_table_keeps_the_handle cfg corder tb tb' before e). Qed.
+
+Theorem C11_vacuum_of_an_empty_table_never_puts (cfg : KvProto.cfg (V := row)) (corder : list name) (tb : table) before :
+  h_tree (tb_h tb) = [] -> commit_needed (tb_h tb) = false ->
+  no_put (tbl_vacuum cfg corder tb before).
+Proof. exact (vacuum_empty_table_never_puts cfg corder tb before). Qed.
+
 (* the object equality of the s3db row configuration (what the extracted model runs) decides
    equality, so the theorems above apply to it; the empty bucket is named *)
 Theorem C11_rows_object_equality_sound a b : obj_eqb_rows a b = true -> a = b.
@@ -89,3 +101,5 @@ Print Assumptions C11_reopening_versions_returns_same_rows.
 Print Assumptions C11_rows_object_equality_sound.
 Print Assumptions C11_plain_object_equality_sound.
 Print Assumptions C11_empty_bucket_named.
+Print Assumptions C11_vacuum_of_an_empty_table_keeps_its_version.
+Print Assumptions C11_vacuum_of_an_empty_table_never_puts.
